@@ -362,13 +362,20 @@ impl Storage {
             }
         }
 
+        // The scripts and the block number from which the filters are synced are written together:
+        // if the process stopped between the two writes, a new script would stay registered while
+        // the blocks after its block number were never filtered for it.
+        if let Some(min_number) = min_block_number {
+            batch
+                .put(
+                    Key::Meta(MIN_FILTERED_BLOCK_NUMBER).into_vec(),
+                    min_number.to_le_bytes(),
+                )
+                .expect("batch put should be ok");
+        }
         #[cfg(ckb_light_client_verif)]
         crate::verif_hooks::point("write", "update_filter_scripts:batch");
         batch.commit().expect("batch commit should be ok");
-
-        if let Some(min_number) = min_block_number {
-            self.update_min_filtered_block_number(min_number);
-        }
         // The pending matched blocks are going to be discarded without being indexed, but the
         // filters of their ranges have already been processed: sync those filters again, so no
         // block is skipped for the scripts which are still registered.
